@@ -25,6 +25,8 @@ Loop-body reading (`emit_loop`, `Fn(..., loop_mode=True)`; added for C11, used b
   -> `signal_at_k_1`): the VALUE of that element is an input of the formula; WHICH element it is, is tied separately
   through the index expressions (`highEnd`, `lowEnd`), which are translated with `typ="Int"` (integer arithmetic:
   `+ - *`, comparisons, no division);
+* a local bound once in the iteration to an expression without element reads (`prev = k - 1`) is inlined where it
+  is used as an index, so that `signal[prev]` and `signal[k - 1]` are the same parameter;
 * `math.sqrt(e)` becomes the parameter `sqrt_<text of e>` (the double is an input of the models);
 * the parameters of a loop-body definition are listed in alphabetical order (not in order of first mention), so
   that reordering operands or independent statements keeps the signature.
@@ -379,6 +381,38 @@ def _resolve_none_tests(body, given, absent):
     return out
 
 
+def _inline_index_locals(body):
+    """a local that the iteration binds exactly once, by a plain assignment to an expression without element reads
+    (`prev = k - 1`), is replaced by that expression wherever it is used as an INDEX, so that `signal[prev]` and
+    `signal[k - 1]` name the same element"""
+    import copy
+    binds, other = {}, set()
+    for stmt in body:
+        for n in ast.walk(stmt):
+            if isinstance(n, ast.Assign) and len(n.targets) == 1 and isinstance(n.targets[0], ast.Name):
+                binds.setdefault(n.targets[0].id, []).append(n)
+            elif isinstance(n, (ast.AugAssign, ast.For, ast.With, ast.NamedExpr)):
+                for t in ast.walk(n.target if hasattr(n, "target") else n):
+                    if isinstance(t, ast.Name) and isinstance(t.ctx, ast.Store):
+                        other.add(t.id)
+    single = {k: v[0].value for k, v in binds.items()
+              if len(v) == 1 and k not in other and v[0] in body
+              and not any(isinstance(x, (ast.Subscript, ast.Call)) for x in ast.walk(v[0].value))}
+
+    class T(ast.NodeTransformer):
+        def visit_Subscript(self, node):
+            node.value = self.visit(node.value)
+            node.slice = S().visit(node.slice)
+            return node
+
+    class S(ast.NodeTransformer):
+        def visit_Name(self, node):
+            if isinstance(node.ctx, ast.Load) and node.id in single:
+                return copy.deepcopy(single[node.id])
+            return node
+    return [ast.fix_missing_locations(T().visit(copy.deepcopy(st))) for st in body]
+
+
 def loop_slice(body, target):
     """backward slice of one loop iteration: the statements `target` (a name or an element key) depends on"""
     need, keep = {target}, []
@@ -406,7 +440,8 @@ def emit_loop(repo, o, specs):
                 raise Untranslatable(f"expected exactly one `for {loopvar} in ...` loop, found {len(loops)}")
             texpr = ast.parse(target, mode="eval").body
             key = _elem_name(texpr) if isinstance(texpr, ast.Subscript) else texpr.id
-            body = loop_slice(_resolve_none_tests(list(loops[0].body), kw.get("given", ()), kw.get("absent", ())), key)
+            body = loop_slice(_inline_index_locals(
+                _resolve_none_tests(list(loops[0].body), kw.get("given", ()), kw.get("absent", ()))), key)
             if not body:
                 raise Untranslatable(f"`{target}` is not assigned in the loop body")
             pseudo = ast.FunctionDef(name=fname, args=fn.args, body=body + [ast.Return(value=texpr)], decorator_list=[])
